@@ -110,6 +110,14 @@ CHECKS = [
              "<t,L c>, metric != closed-form Fisher information, energy != documented -log pdf, L != vjp(transformation), J^T J != "
              "metric; the same through amend (affine, exp models), LikelihoodSum and freeze. Shapes (1,), (2,), (2,2).",
      "design_ref": "DESIGN.md 4/C12"},
+    {"property_id": "C29", "engine": "B", "category": "other", "technique": TECH_B, "note": NOTE_B,
+     "text": "Bounded symbolic verification on the compiler IR of wiener_process, ornstein_uhlenbeck_process, integrated_wiener_process "
+             "(+/- asperity), scalar/discrete_gauss_markov_process and the process models: with a separate symbol per step size "
+             "(non-uniform grids), constant or per-step sigma/gamma, symbolic asperity and initial state, the output is affine in "
+             "the excitations and z3 refutes T T^T != continuous-time covariance at the grid points (2-3 steps, 4 thorough); the "
+             "generic generator equals the explicit recursion for every constant/per-step drift x diffusion combination and "
+             "reproduces the specialised processes.",
+     "design_ref": "DESIGN.md 4/C29"},
 ]
 
 ALL = [f"C{i:02d}" for i in range(1, 37)]
